@@ -552,7 +552,7 @@ func waitClients(f *Fixture, clients []*rclient.Client, want []int, deadline tim
 	}
 	for round := 0; round < 3; round++ {
 		t0 := time.Now()
-		err := f.Witness(10 * time.Second)
+		err := f.Responsive(10 * time.Second)
 		if err == nil && time.Since(t0) < 500*time.Millisecond {
 			// the proxy is responsive: give the missing replies one short grace period
 			waitUntil(1 * time.Second)
